@@ -93,7 +93,13 @@ def gen(tier, seed):
             cases.append("entity\t%s\t%s\t%s" % (kind, dumps(rnd.choice(starts(kind))), "\t".join(dumps(o) for o in objs)))
             dist["random long histories"] += 1
     # encode_protected
-    prots = [None, "e30", "", {"alg": "HS256"}, {}, {"b": [1, {"c": "é\n"}], "a": None}, [], 5, True, 1.5, {"z": "\u0001"}]
+    import base64 as _b
+    enc = lambda t: _b.urlsafe_b64encode(t).rstrip(b"=").decode()
+    # already-encoded headers of every flavour: canonical, RFC 7515 A.1 (CRLF + unsorted), unsorted keys, blanks, escapes,
+    # duplicate members, a non-canonical number, not JSON at all, not base64url at all -- all must be kept verbatim
+    encoded = [enc(b'{"typ":"JWT",\r\n "alg":"HS256"}'), enc(b'{"kid":"second","alg":"ES256"}'), enc(b'{ "alg" : "HS256" }'),
+               enc(b'{"alg":"HS256","x":"\\u0041"}'), enc(b'{"a":1,"a":2}'), enc(b'{"n":1.0}'), enc(b'not json'), "!!!", "e30="]
+    prots = [None, "e30", "", {"alg": "HS256"}, {}, {"b": [1, {"c": "é\n"}], "a": None}, [], 5, True, 1.5, {"z": "\u0001"}] + encoded
     for p in prots:
         for extra in ({}, {"header": {"x": 1}}, {"signature": "s"}):
             o = dict(extra)
@@ -139,11 +145,13 @@ def oracle(case, out):
         return ("crash:" + out[:80], "crash or sanitizer report: " + out)
     f = case.split("\t")
     if f[0] != "entity":
-        if f[0] == "encprot" and out != "ERR":
+        if f[0] == "encprot":
             o = json.loads(f[1])
-            r = json.loads(out)
-            if isinstance(o, dict) and isinstance(o.get("protected"), str) and r != o:
-                return ("encprot-reencoded", "an already encoded protected header was altered")
+            if isinstance(o, dict) and isinstance(o.get("protected"), str):
+                if out == "ERR":
+                    return ("encprot-encoded-refused", "encode_protected refuses an object whose protected header is already text (it has nothing to do)")
+                if json.loads(out) != o:
+                    return ("encprot-reencoded", "an already encoded protected header was altered: %s -> %s" % (o["protected"][:40], json.loads(out).get("protected", "")[:40]))
         return None
     pl, keys = KEYS[f[1]]
     root = json.loads(f[2])
